@@ -28,6 +28,22 @@ static Json::Value gen() {
       rs["actions"] = acts;
     }
   }
+  // a prekill hook that matches everything and needs a few polls: the dry run
+  // has to wait for it exactly as the wet run does (control flow)
+  if (P(30)) {
+    Json::Value h(Json::objectValue);
+    h["name"] = "vp_hook";
+    h["args"]["id"] = "h0";
+    h["args"]["cgroup"] = P(70) ? "/" : "*,*/*,*/*/*";
+    sc["config"]["prekill_hooks"].append(h);
+    Json::Value polls(Json::arrayValue);
+    int n = R(1, 3);
+    for (int i = 0; i < n; i++) polls.append(P(20) ? 0 : (P(85) ? R(1, 4) : -1));
+    sc["scripts"]["hooks"]["h0"]["polls"] = polls;
+    for (auto& rs : sc["config"]["rulesets"])
+      if (P(70)) rs["prekill_hook_timeout"] = std::to_string(R(0, 12));
+    sc["meta"]["hook"] = true;
+  }
   return sc;
 }
 
@@ -82,6 +98,7 @@ static Verdict run(const Json::Value& sc) {
   RunResult W = runDaemon(withDry(sc, false));
   auto winv = segment(W);
   if (!D.exception.empty() || !W.exception.empty()) v.labels.push_back("exception");
+  if (sc["meta"].get("hook", false).asBool()) v.labels.push_back("prekill_hook");
   // 1. no side effect at all in the dry run
   for (auto& e : D.trace) {
     if (isBoundary(e)) {
